@@ -2,7 +2,7 @@
 import json, os, shutil, time
 import vlib
 
-PROPS = {"A", "B", "C", "D", "E"}
+PROPS = {"A", "B", "C", "D", "E", "F"}
 LIVE = {"A", "B", "C", "E"}
 INV = ["ComponentsFollow", "FileIsBase", "OnlyWorkable"]
 
